@@ -25,7 +25,7 @@ DOM_PARAMS = [None, None, None,
 
 
 def run_config(rng, dom):
-    c = {"dom": dom, "wd": rng.choice([0, 1, 2, 2, 5]), "desc": rng.choice([0, 1, 1, 2]), "th": rng.choice([0, 0, 5]),
+    c = {"dom": dom, "wd": rng.choice([0, 1, 2, 2, 3, 5]), "desc": rng.choice([0, 1, 1, 2]), "th": rng.choice([0, 0, 5]),
          "live": rng.choice([0, 0, 1])}
     pr = rng.choice(DOM_PARAMS)
     if pr:
